@@ -81,7 +81,7 @@ CHECKS["C05"]=dict(cat="exploration", engine="xplore", design="DESIGN.md §3 C05
    note="Trusted: the forked-child sandbox and counting allocator (vcore::alloc); the independent chunk/structure maps used to locate fields. Allocation threshold sits above everything the library's documented limits allow.")
 PENDING={}
 CHECKS["C19"]=dict(cat="model_checking", engine="histbfs", design="DESIGN.md §3 C19",
-   technique="(threads) stateless exploration under loom: storm-ffi compiled with hook H1 so its Mutex/LazyLock/thread_local are loom's; 21 hand-written scenarios of 2-3 threads x 1-2 C-API calls plus every unordered pair of 21 read-only and 11 writable calls on shared handles (319 scenarios), all interleavings up to preemption bound 2/3, linearizability by differential against every sequential merge of the same calls; (sequential) explicit-state BFS over C-API call histories in forked children against a handle/cursor model and the Rust API",
+   technique="(threads) stateless exploration under loom: storm-ffi compiled with hook H1 so its Mutex/LazyLock/thread_local are loom's; 23 hand-written scenarios of 2-3 threads x 1-2 C-API calls plus, over 21 read-only and 11 writable calls on shared handles, every unordered pair and every unordered triple of single calls (2 and 3 threads) and every unordered pair of two-call sequences (107 k scenarios, 1.7 M schedules in quick; thorough adds every unordered triple of two-call sequences over a six-call core on three threads), all interleavings up to preemption bound 2/3, linearizability by differential against every sequential merge of the same calls (where a thread issues two calls next to a CloseArchive, whose three table purges are separate critical sections, the end state and each call's own result are compared instead); (sequential) explicit-state BFS over C-API call histories in forked children against a handle/cursor model and the Rust API",
    text="Threads: every interleaving of lock acquisitions for each scenario is executed on the real source; outcomes (return values + probes) must equal some sequential merge; no deadlock, panic or duplicate handle. Sequential: bounded-exhaustive call histories with stale/closed/null/forged handles and boundary buffer sizes, canaries on every buffer.",
    note="Trusted: loom, hook H1 facade (verif_sync). Code between two lock operations is atomic to the explorer; invalid pointers (as opposed to invalid handles/sizes) are the caller's contract.")
 NOT_APPLICABLE = {}
